@@ -30,7 +30,11 @@ Language (status ``allowed``)
     ``pi(...)``, and strings of 1800 characters or more (the parser has a length guard).
 
 ``unparseable``  the string is not a Python expression, neither as written nor after replacing
-    flow selectors by identifiers.
+    flow selectors (or, as the parser documents, every ':') by identifiers.
+
+Strings containing ':' have up to three readings (plain Python, documented selectors, blanket
+':' -> '___'); see validate_function. Expressions nested more than MAX_DEPTH levels are 'unspecified'
+(recursion limits are a resource question).
 """
 import ast
 import re
@@ -51,10 +55,10 @@ FUNCTIONS = {
     "sdiv": (2, 2),
     "rand": (0, None),
     "randn": (0, None),
-    "SRC_POP_AVG": (2, 4),
-    "TGT_POP_AVG": (2, 4),
-    "SRC_POP_SUM": (2, 4),
-    "TGT_POP_SUM": (2, 4),
+    "SRC_POP_AVG": (1, 4),
+    "TGT_POP_AVG": (1, 4),
+    "SRC_POP_SUM": (1, 4),
+    "TGT_POP_SUM": (1, 4),
     "STITCH_AVG": (1, None),
     "STITCH_SUM": (1, None),
 }
@@ -62,6 +66,7 @@ CONSTANTS = {"pi": math.pi}
 LISTED = set(FUNCTIONS) | set(CONSTANTS)
 DETERMINISTIC = {"max", "min", "exp", "floor", "cos", "sin", "sqrt", "ln", "sdiv"}  # evaluable here
 MAX_LEN = 1800  # the parser refuses strings of this length or more
+MAX_DEPTH = 40  # nesting deeper than this is a resource question (recursion limits), not a language question: 'unspecified'
 
 ARITH_BINOPS = (ast.Add, ast.Sub, ast.Mult, ast.Div, ast.Pow)
 ARITH_UNARY = (ast.USub, ast.UAdd)
@@ -253,14 +258,32 @@ def _walk(node, depth, out, names, features, callee=False):
         _walk(child, depth + 1, out, names, features)
 
 
+def _depth_of(tree):
+    """nesting depth of the tree (iterative: must not hit the recursion limit itself)"""
+    deepest, stack = 0, [(tree, 0)]
+    while stack:
+        node, d = stack.pop()
+        deepest = max(deepest, d)
+        for child in ast.iter_child_nodes(node):
+            stack.append((child, d + 1))
+    return deepest
+
+
 def _classify(tree, src, py_src, selectors):
     out, names, features = [], set(), set()
     try:
         _walk(tree, 1, out, names, features)
     except RecursionError:
-        return Verdict("unparseable", "RecursionError", "expression nested too deeply for the validator")
+        # too deep for the recursive walk: fall back to a flat scan that can only say forbidden / unspecified
+        flat = [type(n).__name__ for n in ast.walk(tree) if isinstance(n, ast.expr) and not isinstance(n, (ast.BinOp, ast.UnaryOp, ast.Compare, ast.Name, ast.Constant, ast.Call))]
+        if flat or "__" in src:
+            return Verdict("forbidden", "DoubleUnderscore" if "__" in src else flat[0], "disallowed construct in a very deep expression", 2, tree=tree)
+        return Verdict("unspecified", "TooDeep", "expression nested too deeply for the validator", 1, tree=tree)
     if selectors:
         features.add("selector")
+    deepest = _depth_of(tree)
+    if deepest > MAX_DEPTH:
+        out.append(("unspecified", "TooDeep", "expression nested %d levels deep" % deepest, 1))
     if "__" not in src:
         out = [o for o in out if o[1] != "DoubleUnderscore"]  # '___' of a mangled selector is not a dunder
     kw = dict(names=names, tree=tree, py_src=py_src, features=features, problems=out)
@@ -369,7 +392,10 @@ def _num(v, ok, err):
 
 def _leaf(v):
     inty = isinstance(v, (int, np.integer)) or (isinstance(v, np.ndarray) and v.dtype.kind in "iub")
-    v = np.asarray(v, dtype=float)
+    try:
+        v = np.asarray(v, dtype=float)
+    except OverflowError:  # an integer literal beyond the float range
+        v = np.asarray(np.inf)
     fin = np.isfinite(v)
     return _Val(v, fin & (np.abs(np.where(fin, v, 0.0)) <= BOUND), np.zeros(v.shape), inty=inty)
 
